@@ -463,6 +463,7 @@ std::vector<uint8_t> ref_encode(const EncLayout &L, const EncContent &C0) {
         Rec gr; gr.group = true; gr.id = ids[g]; gr.name = gnames[g]; gr.locked = r.chance(1, 5);
         if (r.chance(1, 2)) gr.desc = "group " + gnames[g];
         if (L.long_desc && r.chance(1, 2)) gr.desc = std::string(128 + r.below(128), 'd');
+        if (L.force_group_desc >= 0) gr.desc = std::string(static_cast<size_t>(L.force_group_desc), 'g');
         recs.push_back(gr);
     }
     int PG = ids[0], AG = ids[1], FG = ids[2];
